@@ -446,7 +446,7 @@ func c12FinalBlock(r *lib.Rng, defs []c12Class) []string {
 
 // c12Build assembles a program: the forms of cf in the order given, the redefinition (if any)
 // inserted after position rpos of the order, a step observation after every form, then final.
-func c12Build(r *lib.Rng, cf *c12Config, order []int, rpos int, final []string) *c12Prog {
+func c12Build(r *lib.Rng, cf *c12Config, order []int, rpos int, final []string, reps int) *c12Prog {
 	p := &c12Prog{redefAt: -1, reps: 1}
 	emit := func(c int, d c12Class, isRedef bool) {
 		if isRedef {
@@ -467,7 +467,7 @@ func c12Build(r *lib.Rng, cf *c12Config, order []int, rpos int, final []string) 
 	p.final = len(p.toks)
 	p.toks = append(p.toks, final...)
 	if cf.redef != nil {
-		p.reps = 4
+		p.reps = reps
 		p.affected = map[int]bool{}
 		fd := cf.finalDefs()
 		for k := 0; k < cf.n; k++ {
@@ -614,7 +614,7 @@ func c12SweepPrograms() []*c12Prog {
 			}}
 			final := c12FinalBlock(fr, cf.defs)
 			for pi, order := range c12Perms(3) {
-				p := c12Build(fr, cf, order, -1, final)
+				p := c12Build(fr, cf, order, -1, final, 1)
 				p.key = fmt.Sprintf("g%d%d%d", a, b, pi)
 				p.family = fmt.Sprintf("dag3-%d%d", a, b)
 				p.sweep = true
@@ -721,10 +721,14 @@ func (e *c12Exec) observe() string {
 			parts = append(parts, fmt.Sprintf("%d=?", x))
 		}
 	}
-	if len(parts) == 0 {
-		return "-"
+	word := "-"
+	if len(parts) > 0 {
+		word = strings.Join(parts, ",")
 	}
-	return strings.Join(parts, ",")
+	if e.keepText {
+		e.trace = append(e.trace, "  ; slots of that instance (slot-exists-p / slot-boundp / slot-value on s0..s5, sN=u: unbound): "+word)
+	}
+	return word
 }
 
 func c12ErrWord(o lib.Outcome) string {
@@ -998,7 +1002,9 @@ func c12Worker() {
 	}
 }
 
-// c12RunAll distributes the programs over worker processes; result[key][rep] = words
+// c12RunAll distributes the programs over worker processes (fresh process per chunk: classes are
+// global and never go away, so a process is retired after a few hundred programs);
+// result[key][rep] = words
 func c12RunAll(c *lib.Ctx, progs []*c12Prog) map[string][][]string {
 	nw := runtime.NumCPU() / 2
 	if nw > 8 {
@@ -1007,42 +1013,60 @@ func c12RunAll(c *lib.Ctx, progs []*c12Prog) map[string][][]string {
 	if nw < 1 {
 		nw = 1
 	}
-	if nw > len(progs) {
-		nw = len(progs)
+	const chunk = 200
+	var inputs []string
+	for at := 0; at < len(progs); at += chunk {
+		var in strings.Builder
+		for i := at; i < at+chunk && i < len(progs); i++ {
+			p := progs[i]
+			fmt.Fprintf(&in, "%s %d %s\n", p.key, p.reps, strings.Join(p.toks, " "))
+		}
+		inputs = append(inputs, in.String())
 	}
 	res := map[string][][]string{}
 	var mu sync.Mutex
 	var wg sync.WaitGroup
 	failed := false
+	next := 0
 	for w := 0; w < nw; w++ {
-		var in strings.Builder
-		for i := w; i < len(progs); i += nw {
-			p := progs[i]
-			fmt.Fprintf(&in, "%s %d %s\n", p.key, p.reps, strings.Join(p.toks, " "))
-		}
 		wg.Add(1)
-		go func(input string) {
+		go func() {
 			defer wg.Done()
-			cmd := exec.Command(os.Args[0], "C12", "--root", c.Root, "--repo", c.Repo)
-			cmd.Env = append(os.Environ(), "VERIF_C12_WORKER=1")
-			cmd.Stdin = strings.NewReader(input)
-			cmd.Stderr = os.Stderr
-			out, err := cmd.Output()
-			mu.Lock()
-			defer mu.Unlock()
-			if err != nil {
-				fmt.Fprintf(os.Stderr, "C12 worker failed: %v\n", err)
-				failed = true
-				return
-			}
-			for _, line := range strings.Split(string(out), "\n") {
-				f := strings.Fields(line)
-				if len(f) < 2 {
-					continue
+			for {
+				mu.Lock()
+				if next >= len(inputs) || failed {
+					mu.Unlock()
+					return
 				}
-				res[f[0]] = append(res[f[0]], f[2:])
+				input := inputs[next]
+				next++
+				mu.Unlock()
+				cmd := exec.Command(os.Args[0], "C12", "--root", c.Root, "--repo", c.Repo)
+				cmd.Env = append(os.Environ(), "VERIF_C12_WORKER=1")
+				cmd.Stdin = strings.NewReader(input)
+				cmd.Stderr = os.Stderr
+				out, err := cmd.Output()
+				mu.Lock()
+				if err != nil {
+					fmt.Fprintf(os.Stderr, "C12 worker failed: %v\n", err)
+					failed = true
+					mu.Unlock()
+					return
+				}
+				for _, line := range strings.Split(string(out), "\n") {
+					f := strings.Fields(line)
+					if len(f) < 2 {
+						continue
+					}
+					rep, _ := strconv.Atoi(f[1])
+					for len(res[f[0]]) <= rep {
+						res[f[0]] = append(res[f[0]], nil)
+					}
+					res[f[0]][rep] = f[2:]
+				}
+				mu.Unlock()
 			}
-		}(in.String())
+		}()
 	}
 	wg.Wait()
 	if failed {
@@ -1178,9 +1202,13 @@ func c12Lisp(p *c12Prog, upto int) []string {
 		toks = toks[:upto+1]
 	}
 	_, trace := c12RunImpl(p.key+"t", toks, true)
+	return c12FilterTrace(trace)
+}
+
+func c12FilterTrace(trace []string) []string {
 	var out []string
 	for _, l := range trace {
-		if !strings.Contains(l, "slot-exists-p") && !strings.Contains(l, "(class-name (class-of cur))") {
+		if !strings.Contains(l, "(if (slot-exists-p") && !strings.Contains(l, "(class-name (class-of cur))") {
 			out = append(out, l)
 		}
 	}
@@ -1266,7 +1294,7 @@ func c12Replay(c *lib.Ctx) {
 			if !shown {
 				shown = true
 				fmt.Printf("replay (run %d of %d):\n", rep+1, reps)
-				for _, l := range trace {
+				for _, l := range c12FilterTrace(trace) {
 					fmt.Println("  " + l)
 				}
 			}
@@ -1300,7 +1328,7 @@ func runC12(c *lib.Ctx) {
 
 	// perm families
 	type fam struct{ n, count int }
-	fams := []fam{{2, c.Scale(6, 30)}, {3, c.Scale(16, 120)}, {4, c.Scale(12, 120)}, {5, c.Scale(2, 24)}}
+	fams := []fam{{1, c.Scale(4, 12)}, {2, c.Scale(10, 40)}, {3, c.Scale(30, 200)}, {4, c.Scale(30, 200)}, {5, c.Scale(6, 60)}}
 	fi := 0
 	for _, fm := range fams {
 		for k := 0; k < fm.count; k++ {
@@ -1310,7 +1338,7 @@ func runC12(c *lib.Ctx) {
 			final := c12FinalBlock(c.Rng, cf.finalDefs())
 			for pi, order := range c12Perms(fm.n) {
 				rpos := c12RedefPos(c.Rng, cf, order)
-				p := c12Build(c.Rng, cf, order, rpos, final)
+				p := c12Build(c.Rng, cf, order, rpos, final, c.Scale(4, 6))
 				p.key = fmt.Sprintf("f%dp%d", fi, pi)
 				p.family = fmt.Sprintf("f%d", fi)
 				progs = append(progs, p)
@@ -1319,14 +1347,15 @@ func runC12(c *lib.Ctx) {
 		}
 	}
 	// single random programs, five classes
-	nsingle := c.Scale(150, 3000)
+	nsingle := c.Scale(400, 5000)
 	for k := 0; k < nsingle; k++ {
 		o := opts
 		o.redef = !avoidRedef && c.Rng.Chance(60)
 		cf := c12GenConfig(c.Rng, 3+c.Rng.Intn(3), o)
-		order := c12Perms(cf.n)[c.Rng.Intn([]int{1, 1, 2, 6, 24, 120}[cf.n])]
+		perms := c12Perms(cf.n)
+		order := perms[c.Rng.Intn(len(perms))]
 		rpos := c12RedefPos(c.Rng, cf, order)
-		p := c12Build(c.Rng, cf, order, rpos, c12FinalBlock(c.Rng, cf.finalDefs()))
+		p := c12Build(c.Rng, cf, order, rpos, c12FinalBlock(c.Rng, cf.finalDefs()), c.Scale(4, 6))
 		p.key = fmt.Sprintf("s%d", k)
 		progs = append(progs, p)
 	}
